@@ -260,12 +260,19 @@ def main(chk: C.Check, build_: C.Build) -> None:
         if vfail:
             chk.finding("oracle:" + vfail.split(":")[0], vfail,
                         {"source": src, "how": "Environment().from_string(source).analyze() / analyze_async(); source[span] re-parsed"})
-    for src, nodes, must in G.nested_path_cases(C.rng("c17-paths", chk.tier), chk.tier):
-        cnt, vfail = L.nested_path_check(src, nodes, must)
+    for src in G.APPENDIX:
+        if "." in src:
+            cnt, vfail = L.variable_spans(src, True)
+            var_spans += cnt
+            if vfail:
+                chk.finding("oracle:" + vfail.split(":")[0], vfail,
+                            {"source": src, "shorthand_indexes": True, "how": "analyze() with shorthand_indexes; source[span] re-parsed"})
+    for src, nodes, must, psh in G.nested_path_cases(C.rng("c17-paths", chk.tier), chk.tier):
+        cnt, vfail = L.nested_path_check(src, nodes, must, psh)
         path_checks += cnt
         if vfail:
             chk.finding("oracle:" + vfail.split(":")[0], vfail,
-                        {"source": src, "paths": [{k: nd[k] for k in ("root", "start", "text")} for nd in nodes],
+                        {"source": src, "shorthand_indexes": psh, "paths": [{k: nd[k] for k in ("root", "start", "text")} for nd in nodes],
                          "how": "analyze(); Environment(undefined=StrictUndefined) render / render_async with all roots but one bound"})
 
     # correspondence, in groups that share base definitions
